@@ -169,7 +169,9 @@ func runC09Diff(c SeqCase, ev *vt.Ev) *vt.Failure {
 		i := i
 		nz := &normalizer{rank: map[string]string{}}
 		e.Hook = func(req *gcs.Req, resp *gcs.Resp) { traces[i] = append(traces[i], nz.ent(req, resp)) }
-		runners = append(runners, gcs.NewRunner(e))
+		rn := gcs.NewRunner(e)
+		rn.FileNames = true
+		runners = append(runners, rn)
 	}
 	listed := false
 	for si := range c.Steps {
